@@ -4,12 +4,14 @@
   write, reported capacity - as inputs), and the step-wise refinement theorem.
 -/
 import PdshVerif.Cbuf.Lines
+import PdshVerif.Cbuf.WriteLine
 
 namespace PdshVerif.Cbuf
 
 inductive Op where
   | write (bs : List UInt8)
   | writeFromFd (len : Int) (avail : List UInt8) (eof : Bool)
+  | writeLine (s : List UInt8)
   | read (len : Int)
   | peek (len : Int)
   | drop (len : Int)
@@ -30,6 +32,7 @@ structure Out where
 def stepM (c : Cbuf) : Op → Out × Cbuf
   | .write bs => let (r, d, c') := write c bs; ({ ret := r, ndropped := d }, c')
   | .writeFromFd len av eof => let (r, d, c') := writeFromFd c len av eof; ({ ret := r, ndropped := d }, c')
+  | .writeLine s => let (r, d, c') := writeLine c s; ({ ret := r, ndropped := d }, c')
   | .read len => let (r, bs, c') := read c len; ({ ret := r, bytes := some bs }, c')
   | .peek len => let (r, bs) := peek c len; ({ ret := r, bytes := some bs }, c)
   | .drop len => let (r, c') := drop c len; ({ ret := r }, c')
@@ -46,6 +49,7 @@ def stepS (f : Spec.Fifo) (op : Op) (implRet : Int) (implSize : Nat) : Option (O
   | .write bs => (Spec.write f bs implSize).map fun (r, d, f') => ({ ret := r, ndropped := d }, f')
   | .writeFromFd len av eof =>
     (Spec.writeFromFd f len av eof implRet implSize).map fun (r, d, f') => ({ ret := r, ndropped := d }, f')
+  | .writeLine s => (Spec.writeLine f s implSize).map fun (r, d, f') => ({ ret := r, ndropped := d }, f')
   | .read len => let (r, bs, f') := Spec.read f len; some ({ ret := r, bytes := some bs }, f')
   | .peek len => let (r, bs) := Spec.peek f len; some ({ ret := r, bytes := some bs }, f)
   | .drop len => let (r, f') := Spec.drop f len; some ({ ret := r }, f')
@@ -65,6 +69,10 @@ theorem step_refines {c : Cbuf} (hi : Inv c) (op : Op) :
     exact ⟨by rw [h1]; rfl, h2⟩
   | writeFromFd len av eof =>
     obtain ⟨h1, h2⟩ := writeFromFd_refines hi len av eof
+    simp only [stepM, stepS]
+    exact ⟨by rw [h1]; rfl, h2⟩
+  | writeLine s =>
+    obtain ⟨h1, h2⟩ := writeLine_refines hi s
     simp only [stepM, stepS]
     exact ⟨by rw [h1]; rfl, h2⟩
   | read len =>
